@@ -432,6 +432,20 @@ def assign_and_reread(run, W1: dict, W2: dict, views: List[str], tmp: str, engin
             b.save(gpath)
     except Exception as exc:
         if mutate is not None:
+            # a refused save is a handled error: the object still holds every value that was assigned (what was parsed is all
+            # there is - the raw lumps were emptied when the views were read)
+            run.count('objects_inspected_after_a_refused_save')
+            for v in views:
+                try:
+                    now = getattr(b, v)
+                    lost = hasattr(vals[v], '__len__') and hasattr(now, '__len__') and not hasattr(now, 'namelist') and len(now) != len(vals[v])
+                except Exception as exc2:
+                    lost, now = True, f'<{type(exc2).__name__}: {exc2}>'
+                if lost:
+                    run.violation(f'{engine} {W1["layout"]}: after save() refused a value ({type(exc).__name__}), the view {v} of the object no longer holds what was assigned '
+                                  f'({len(vals[v])} items before, now {len(now) if hasattr(now, "__len__") else now})',
+                                  key='refused-save-loses-view', engine=engine, case=case)
+                    break
             return 'rejected', {}, None  # type: ignore[return-value]
         run.violation(f'{engine} {W1["layout"]} views={views}: save raised {type(exc).__name__}: {str(exc)[:200]}',
                       witness=traceback.format_exc()[-1800:], key=f'save-raises-{type(exc).__name__}', engine=engine, case=case)
@@ -822,7 +836,7 @@ def main(run, shard=(0, 1)) -> None:
     probe.report(run)
     if shard[1] == 1:
         probe.check_reached(run)
-    run.require('saves', 'props_assigned_over_an_empty_prop_lump', 'replace_all_compared', 'single_views_compared', 'fit_rejected', 'rle_rows', 'rle_rows_510_plus',
+    run.require('saves', 'props_assigned_over_an_empty_prop_lump', 'objects_inspected_after_a_refused_save', 'replace_all_compared', 'single_views_compared', 'fit_rejected', 'rle_rows', 'rle_rows_510_plus',
                 'static_props_roundtripped', 'ents_comma_outputs', 'ents_esc_outputs', 'c11_values_with_dups',
                 'c11_replace_all_with_dups', 'c11_single_views_with_dups')
 
